@@ -166,6 +166,7 @@ func init() { register(&Check{ID: "C03", Run: runC03}) }
 
 func runC03(tier string) int {
 	r := harness.NewRun("C03", "model_checking", tier, budget(tier, 45*time.Second, 12*time.Minute))
+	r.HangLimit = 90 * time.Second // one case is one small program: a compilation that takes this long hangs
 	maxN := 4
 	if tier == "thorough" {
 		maxN = 6
